@@ -1073,6 +1073,10 @@ class Interp:
             if isinstance(idx, Ch):
                 if idx.members is not None and len(idx.members) == 1:
                     idx = next(iter(idx.members))
+                elif idx.members is None and all(isinstance(k, str) and len(k) == 1 and k in idx.excluded for k in v):
+                    raise RaiseEx("KeyError", node)  # a character that is none of the keys
+                elif idx.members is not None and not any(k in idx.members for k in v if isinstance(k, str)):
+                    raise RaiseEx("KeyError", node)
                 else:
                     raise CannotDecide("dict lookup with %r" % idx)
             if isinstance(idx, AbsStr):
@@ -1986,6 +1990,17 @@ class Interp:
             return r
         if name == "isinstance":
             return self.isinstance_(args[0], args[1], node)
+        if name == "next" and args and isinstance(args[0], (list, tuple, AIter)) and not kwargs:
+            # next(<generator expression>, default): generator expressions are evaluated to lists here, so the first
+            # element is the answer (only right for an iterator that has not been advanced before -- the only use made of
+            # it in this code base: next((x for ...), default))
+            items = args[0].items if isinstance(args[0], AIter) else args[0]
+            if isinstance(items, list) or isinstance(items, tuple):
+                if len(items) > 0:
+                    return items[0]
+                if len(args) > 1:
+                    return args[1]
+                raise RaiseEx("StopIteration", node)
         if name == "sum" and args and isinstance(args[0], (list, tuple)) and _has_abs(list(args[0]) + list(args[1:])) and not kwargs:
             # a fold with '+': the elements' own arithmetic decides
             acc = args[1] if len(args) > 1 else 0
